@@ -246,6 +246,7 @@ impl Engine for C13 {
             min_len: 0,
             dup_pct: 20,
             tab_desc_pct: 0,
+            dup_id_pct: 0,
         };
         let mut records = g.gen(rng);
         while records.len() < batch {
